@@ -21,6 +21,20 @@ fn main() {
         }
         return;
     }
+    if args[0] == "--kf-sigs" {
+        // machine-readable list of the SQL known-finding signatures (tools/kf_update.py)
+        let v: Vec<_> = qe_verif::kf_sql::SIGS
+            .iter()
+            .map(|s| serde_json::json!({"id": s.id, "summary": s.summary, "signature": s.signature}))
+            .collect();
+        println!("{}", serde_json::to_string_pretty(&v).unwrap());
+        return;
+    }
+    if args[0] == "--export" {
+        // --export <profile> <n> <seed> <outfile>   (SQLite cross-check of refsql)
+        qe_verif::export::export(&args[1], args[2].parse().unwrap(), args[3].parse().unwrap(), &args[4]);
+        return;
+    }
     if args[0] == "--worker" {
         qe_verif::worker::main(&args[1..]);
         return;
@@ -69,7 +83,12 @@ fn main() {
         }
     };
     // quiet panic hook: panics are caught and reported as verdicts
-    std::panic::set_hook(Box::new(|_| {}));
+    // (a panic on the main thread is a harness bug: show it)
+    std::panic::set_hook(Box::new(|info| {
+        if std::thread::current().name() == Some("main") && !qe_verif::runner::in_guard() {
+            eprintln!("harness panic: {}", info);
+        }
+    }));
 
     if let Some(path) = replay {
         let cx = RunCtx::new(&id, tier, seed);
